@@ -15,7 +15,7 @@ SPEC = {
             "distinct = distinct (grammar, start/needle, target, outcome class, tree shape bucket)",
     "minimum": {"quick": {"fixed_length_judged": 400, "fixed_length_trees": 250, "count_calls": 500, "count_proposals_judged": 150,
                           "model_values_judged": 30},
-                "thorough": {"fixed_length_judged": 40000, "count_calls": 20000, "count_proposals_judged": 3000, "model_values_judged": 600}},
+                "thorough": {"fixed_length_judged": 5200, "count_calls": 11000, "count_proposals_judged": 3000, "model_values_judged": 460}},
     "assumptions": ["R1 validity and reachability", "non-termination is bounded by a watchdog and counted as inconclusive "
                     "(the property does not promise termination)", "an open leaf labelled needle is an occurrence already counted"],
 }
